@@ -232,11 +232,19 @@ class NamespaceFunction(Namespace[symtable.Function]):
                 ctx=Load(),
             )
         else:  # globals or locals except free
-            try:
-                # declared here, or global because an enclosing function declares it
-                is_global = self.symt.lookup(name).is_global()
-            except KeyError:
-                is_global = False
+            # global here: declared here or in an enclosing function. A name that
+            # is only used by a lambda/comprehension of this function is not in
+            # this symbol table, the enclosing functions decide then.
+            is_global = False
+            nsp: Namespace = self
+            while not isinstance(nsp, NamespaceGlobal):
+                if isinstance(nsp, NamespaceFunction):
+                    try:
+                        is_global = nsp.symt.lookup(name).is_global()
+                        break
+                    except KeyError:
+                        pass
+                nsp = nsp.outer_nsp
             if is_global:
                 return self.get_load_declared_global(name)
             return Name(id=name, ctx=Load())
